@@ -228,6 +228,7 @@ Outcome paths(Json const& plan)
     using any_t = gil::any_image<gil::rgb8_image_t, gil::rgba8_image_t>;
     static char const* const names[] = {"gray8", "rgb8", "rgba8"};
     PathsCfg cfg;
+    cfg.seeks = true;
     cfg.scan_refused = (v == "rle4" || v == "rle8"); // bmp/detail/scanline_read.hpp: "Cannot read run-length encoded images in iterator mode."
     // OS/2 palette images: read_image accepts only rgb8 (is_allowed) while the scanline reader hands out rgba8 rows
     // with alpha 0; the two layouts cannot be compared channel by channel, so the scanline path is not judged there
